@@ -103,6 +103,9 @@ type shardEvidence struct {
 	Violations   []violation       `json:"violations"`
 	KnownLines   []string          `json:"known_lines"`
 	Inconclusive int64             `json:"inconclusive"`
+	// cases discarded because the harness's generator left its domain (oracle error starting with GENERATOR)
+	GeneratorFaults       int64    `json:"generator_faults"`
+	GeneratorFaultSamples []string `json:"generator_fault_samples,omitempty"`
 }
 
 type tstat struct {
@@ -423,6 +426,21 @@ func Run[C any](t *testing.T, p Prop[C]) {
 			mu.Unlock()
 			err = nil
 		}
+		if err != nil && IsGeneratorFault(err) {
+			// the harness's own generator produced a case outside its intended domain (e.g. a program the checker
+			// rejects for a typing corner the generator does not model): that says nothing about the property.
+			// The case is discarded and counted; the driver turns a run with more than a few of them into
+			// "inconclusive" (generator health), never into a violation.
+			ctx.Label("generator_fault")
+			mu.Lock()
+			state.Inconclusive++
+			state.GeneratorFaults++
+			if len(state.GeneratorFaultSamples) < 3 {
+				state.GeneratorFaultSamples = append(state.GeneratorFaultSamples, trunc(err.Error(), 600))
+			}
+			mu.Unlock()
+			err = nil
+		}
 		record(p.Name, ctx, func() any { return p.Sample(c) })
 		if err != nil {
 			lastMsg = err.Error()
@@ -432,6 +450,11 @@ func Run[C any](t *testing.T, p Prop[C]) {
 }
 
 var surveyFirst = map[string]string{}
+
+// IsGeneratorFault reports whether an oracle error blames the harness's generator rather than the code under test.
+func IsGeneratorFault(err error) bool {
+	return err != nil && strings.HasPrefix(err.Error(), "GENERATOR")
+}
 
 // surveySig strips the variable parts (digits, quoted text) of a message.
 func surveySig(msg string) string {
